@@ -294,6 +294,8 @@ SIGNATURES = {"uf-bool-argument-model-error": sig_boolarg,
               "ghost-vars-theory-combination-wrong-sat": lambda c, r: sig_wrong_sat(sigs.ghost_combination_wrong_sat)(c, r) or (
                   sigs.is_ghost(c) and str((r.detail or {}).get("what", "")).split(":")[0] in (
                       "model-falsifies-assertion", "value-differs-from-model", "assignment-differs-from-model")),
+              "lookahead-model-incomplete": lambda c, r: sigs.is_lookahead(c) and "Bool)" in str((r.detail or {}).get("model", "")) and str(
+                  (r.detail or {}).get("what", "")).split(":")[0] in ("model-falsifies-assertion", "value-differs-from-model", "assignment-differs-from-model"),
               "lookahead-three-assertion-levels": lambda c, r: sigs.lookahead_deep(c, (r.detail or {}).get("cmd_index")) and str(
                   (r.detail or {}).get("what", "")).split(":")[0] in ("model-falsifies-assertion", "model-of-unsat-set",
                                                                       "value-differs-from-model", "assignment-differs-from-model"),
